@@ -58,13 +58,16 @@ def check(pid, tier, replay=None):
                      dict(id="C18-i", n=40, subs=1, finalAt=0, newSubs=True),
                      # reports of varying size (below, equal to and beyond the grant; nothing), every second one final: the
                      # settlement paths (refund, termination debit) next to the reserving one
-                     dict(id="C18-j", n=48, subs=2, finalAt=2, used=[10, 5, 12, 0, 10])]
+                     dict(id="C18-j", n=48, subs=2, finalAt=2, used=[10, 5, 12, 0, 10]),
+                     # the store fails every fourth write (a transient error): the request concerned may fail, nothing stays behind
+                     dict(id="C18-l", n=24, subs=2, finalAt=0, dbFailEvery=4)]
         else:
             cases = [dict(id="C18-a", n=10, subs=1, finalAt=0), dict(id="C18-b", n=100, subs=1, finalAt=4), dict(id="C18-c", n=1000, subs=3, finalAt=5),
                      dict(id="C18-d", n=1000, subs=1, finalAt=0), dict(id="C18-e", n=300, subs=8, finalAt=3), dict(id="C18-f", n=6, subs=6, finalAt=0, noAcct=True),
                      dict(id="C18-g", n=12, subs=3, finalAt=0, peerFault="slowcea"), dict(id="C18-h", n=60, subs=6, finalAt=0, peerFault="dropaftercea"),
                      dict(id="C18-i", n=400, subs=1, finalAt=0, newSubs=True),
-                     dict(id="C18-j", n=600, subs=2, finalAt=2, used=[10, 5, 12, 0, 10]), dict(id="C18-k", n=300, subs=3, finalAt=3, used=[10, 11])]
+                     dict(id="C18-j", n=600, subs=2, finalAt=2, used=[10, 5, 12, 0, 10]), dict(id="C18-k", n=300, subs=3, finalAt=3, used=[10, 11]),
+                     dict(id="C18-l", n=120, subs=3, finalAt=0, dbFailEvery=4), dict(id="C18-m", n=60, subs=2, finalAt=3, dbFailEvery=3, used=[10, 5, 12])]
         mode, chunk, nw = "leak", 1, 6
     if replay:
         with open(replay) as f:
